@@ -25,6 +25,9 @@ type opCaseOpts struct {
 	maxIndexRank int     // Slice/Patch index products only for rank <= this
 	concatSizes  []int
 	concat3      bool
+	// bigIndexLimit: shapes with more elements than this get only a few
+	// representative Slice/Patch index lists instead of the full product (0 = no limit)
+	bigIndexLimit int
 }
 
 // forEachOpCase enumerates, simplest first, every configuration of the 33
@@ -71,7 +74,26 @@ func forEachOpCase(o opCaseOpts, f func(oc OpCase)) {
 				f(OpCase{ref.Op{K: k, Dim: d}, [][]int{sh()}})
 			}
 		}
-		if len(s) <= o.maxIndexRank {
+		maxD := 0
+		for _, d := range s {
+			if d > maxD {
+				maxD = d
+			}
+		}
+		if maxD > 3 || (o.bigIndexLimit > 0 && ref.Size(s) > o.bigIndexLimit) {
+			// long dimensions: a window in the middle, a prefix, a partial index
+			mid := make([]ref.Range, len(s))
+			pre := make([]ref.Range, len(s))
+			for i, d := range s {
+				mid[i] = ref.Range{From: d / 3, To: d/3 + (d+1)/2}
+				pre[i] = ref.Range{From: 0, To: (d + 1) / 2}
+			}
+			for _, ix := range [][]ref.Range{mid, pre, mid[:1]} {
+				f(OpCase{ref.Op{K: "Slice", Index: ix}, [][]int{sh()}})
+				src, _ := ref.ResultShape(ref.Op{K: "Slice", Index: ix}, [][]int{s})
+				f(OpCase{ref.Op{K: "Patch", Index: ix}, [][]int{sh(), src}})
+			}
+		} else if len(s) <= o.maxIndexRank {
 			for _, ix := range enum.IndexLists(s) {
 				f(OpCase{ref.Op{K: "Slice", Index: ix}, [][]int{sh()}})
 			}
